@@ -40,8 +40,16 @@ def _sm():
     return sym_metanet
 
 
+NUMREP = 0   # representation of numeric parameters handed to the constructors (set per case by Built)
+
+
 def _n(s):
+    """a numeric parameter as users write it: an int where integral (0), always a float (1), a NumPy scalar (2)"""
     v = num(s)
+    if NUMREP == 1:
+        return float(v)
+    if NUMREP == 2:
+        return np.float64(v)
     return int(v) if float(v).is_integer() and abs(v) < 1e9 else v
 
 
@@ -53,9 +61,12 @@ class Built:
     """a network built from a case, with the maps abstract id <-> real object"""
 
     def __init__(self, case: dict, syms: dict | None = None):
+        global NUMREP
         sm = _sm()
         nj = case["net"]
         names = case.get("names") or {}
+        NUMREP = zlib.crc32(f"{case.get('id')}|numrep".encode()) % 3
+        self.bufs = []   # (buffer, pristine copy) behind strided views handed to the library
         syms = syms or {}  # (kind, el) -> symbol replacing a numeric parameter
         nm = lambda i: names.get(i, i)  # noqa: E731
         self.case = case
@@ -127,24 +138,36 @@ class Built:
         return s
 
     # ------------------------------------------------------------------ values
-    def np_init(self, x, u, d):
-        """init_conditions dict of fresh NumPy arrays from abstract values (dicts of floats)"""
+    def np_init(self, x, u, d, mode=0):
+        """init_conditions dict of fresh NumPy arrays from abstract values (dicts of floats).
+        mode 0: contiguous writable arrays; 1: read-only arrays (an in-place write raises); 2: strided views of larger
+        buffers (an in-place write lands in the caller's buffer, kept in self.bufs for comparison)"""
+        def arr(vals):
+            a = np.array(vals, float)
+            if mode == 1:
+                a.flags.writeable = False
+            elif mode == 2:
+                buf = np.full(2 * len(a) + 3, -777.25)
+                view = buf[1:1 + 2 * len(a):2]
+                view[...] = a
+                self.bufs.append((buf, buf.copy()))
+                return view
+            return a
         ic = {}
         nj = self.case["net"]
         for l, ob in self.links.items():
-            e = {"rho": np.array(x["rho"][l], float), "v": np.array(x["v"][l], float)}
+            e = {"rho": arr(x["rho"][l]), "v": arr(x["v"][l])}
             if nj["links"][l]["ctl"]:
-                e["v_ctrl"] = np.array(u["vctrl"].get(l, []), float)
+                e["v_ctrl"] = arr(u["vctrl"].get(l, []))
             ic[ob] = e
         for o, ob in self.origins.items():
             kind = nj["origins"][o]["kind"]
             if kind == "ideal":
                 continue
-            ic[ob] = {"w": np.array([x["w"][o]], float), "d": np.array([d["o"][o]], float),
-                      UNAME[kind]: np.array([u["o"][o]], float)}
+            ic[ob] = {"w": arr([x["w"][o]]), "d": arr([d["o"][o]]), UNAME[kind]: arr([u["o"][o]])}
         for k, ob in self.dests.items():
             if nj["dests"][k]["kind"] == "congested":
-                ic[ob] = {"d": np.array([d["dest"][k]], float)}
+                ic[ob] = {"d": arr([d["dest"][k]])}
         return ic
 
     def byname(self, x, u, d):
@@ -307,7 +330,9 @@ def observe(case: dict) -> dict:
         o = {"has": True, "ok": False, "err": "", "y": {"rho": {}, "v": {}, "w": {}}, "shapes": True}
         o["pure"] = {"has": False}
         try:
-            ic = b.np_init(x, u, d)
+            # C12 (pure): the caller's arrays in three representations, chosen per case
+            amode = zlib.crc32(f"{case.get('id')}|arrays".encode()) % 3 if want.get("pure", False) else 0
+            ic = b.np_init(x, u, d, amode)
             pristine = {el_: {k_: v_.copy() for k_, v_ in dd.items()} for el_, dd in ic.items()}
             keys = {el_: list(dd) for el_, dd in ic.items()}
             ids = {el_: {k_: id(v_) for k_, v_ in dd.items()} for el_, dd in ic.items()}
@@ -326,15 +351,21 @@ def observe(case: dict) -> dict:
                             if id(a_) != ids[el_][k_] or a_.shape != v_.shape or not np.array_equal(a_, v_, equal_nan=True):
                                 ch.append(f"{k_} of {b.idof.get(el_)}")
                     return ch
-                ch1 = changed()
+                def bufs_changed():
+                    return [f"buffer #{i_} behind a strided view" for i_, (bu, cp) in enumerate(b.bufs) if not np.array_equal(bu, cp)]
+                ch1 = changed() + bufs_changed()
                 # the same dictionary again on the same objects
                 b.net.step(init_conditions=ic, engine=np_engine(), **okw, **kw)
                 y2, _ = b.read_next()
-                ch2 = changed()
+                ch2 = changed() + bufs_changed()
                 # the caller reuses its buffers: the same array objects, refilled in place with other values
                 for el_, dd in ic.items():
                     for k_, v_ in dd.items():
+                        if amode == 1:
+                            v_.flags.writeable = True
                         v_[...] = pristine[el_][k_] * 0.875 + 0.5
+                        if amode == 1:
+                            v_.flags.writeable = False
                 moved = {el_: {k_: v_.copy() for k_, v_ in dd.items()} for el_, dd in ic.items()}
                 b.net.step(init_conditions=ic, engine=np_engine(), **okw, **kw)
                 y4, _ = b.read_next()
